@@ -6,6 +6,7 @@ structure, parameters as the sympy trees they are, free-symbol lists, error kind
 literals and lets the Coq model (Circ/Bind.v) compute the same thing.  Parameters are compared
 inside Coq by evaluating both sides over Q at three environments.
 """
+import os
 import sympy
 import numpy as np
 from mpmath.libmp import to_rational
@@ -23,7 +24,10 @@ H = Harness("C06", ["OQ.Base.CaseEq", "OQ.Serde.Expr", "OQ.Circ.Bind", "OQ.Circ.
             "Power/Exponential re-wrapping and its ValueError), unitary (fully symbolic circuits, circuit matrix), history (ONE "
             "dict object reused for 2-4 successive binds of a circuit / its operations / its gates, updated in place in "
             "between: value changed, key added, key removed, cleared and refilled; every bind compared with the model on the "
-            "contents at that time; the object holds a bare-symbol and an expression parameter); parameters "
+            "contents at that time; the object holds a bare-symbol and an expression parameter), bound-history (parameters that "
+            "contain a construct with a BOUND variable - Sum, Product, Integral, Subs - in built-in / custom / wrapped gates and "
+            "MultiPhaseOperation, bound partially, then totally, then with the bound variable itself as a superfluous key; the "
+            "oracle decides which symbols a parameter depends on by evaluating it at varied values); parameters "
             "from the grammar symbol | integer | dyadic rational | + | * | - | **k | sin | cos | f | g; non-trivial = the map "
             "binds at least one free symbol, or the operation under test has a wrapper or symbolic argument")
 
@@ -63,6 +67,16 @@ def b_expr(j):
         return b_expr(j[1]) ** j[2]
     if k == "fn":
         return FUNCS[j[1]](*[b_expr(a) for a in j[2]])
+    if k == "powsym":                      # symbolic exponent, only under a Sum / Product over that symbol
+        return b_expr(j[1]) ** sympy.Symbol(j[2])
+    if k == "bsum":
+        return sympy.Sum(b_expr(j[1]), (sympy.Symbol(j[2]), j[3], j[4]))
+    if k == "bprod":
+        return sympy.Product(b_expr(j[1]), (sympy.Symbol(j[2]), j[3], j[4]))
+    if k == "bint":
+        return sympy.Integral(b_expr(j[1]), (sympy.Symbol(j[2]), j[3], j[4]))
+    if k == "bsubs":
+        return sympy.Subs(b_expr(j[1]), sympy.Symbol(j[2]), b_expr(j[3]))
     raise ValueError(k)
 
 
@@ -125,7 +139,18 @@ def d_q(fr):
     return cq(Fraction(fr))
 
 
+BOUND_CONSTRUCTS = (sympy.Sum, sympy.Product, sympy.Integral, sympy.Subs)
+
+
 def d_expr(e):
+    if isinstance(e, BOUND_CONSTRUCTS):
+        # the model has no binders: the construct is dumped as the expression in its free symbols that it
+        # evaluates to (the bound variable does not occur); if that loses or gains a symbol, as an opaque
+        # function of its free symbols
+        r = e.doit()
+        if not r.has(*BOUND_CONSTRUCTS) and r.free_symbols == e.free_symbols:
+            return d_expr(r)
+        return f"(Fun {cstring('bound')} {clist(sorted(e.free_symbols, key=str), d_expr)})"
     if isinstance(e, sympy.Symbol):
         return f"(Sym {cstring(e.name)})"
     if isinstance(e, sympy.Rational):
@@ -262,15 +287,15 @@ def numeric(M, env):
     if isinstance(M, np.ndarray):
         return np.array(M, dtype=complex)
     M = sympy.Matrix(M) if not isinstance(M, sympy.MatrixBase) else M
-    M = interp(M)
-    M = M.xreplace({s: sympy.Rational(env[s.name][0], env[s.name][1]) for s in M.free_symbols})
+    M = interp(M.doit())   # constructs first: a symbol can be free in one parameter and bound in another
+    M = M.xreplace({s: sympy.Rational(env[s.name][0], env[s.name][1]) for s in M.free_symbols}).doit()
     return np.array(M.evalf(30).tolist(), dtype=complex)
 
 
 def num_expr(e, env):
     """sympy expression -> sympy number (30 digits) at the environment"""
-    e = interp(e)
-    return e.xreplace({s: sympy.Rational(env[s.name][0], env[s.name][1]) for s in e.free_symbols}).evalf(30)
+    e = interp(e.doit())
+    return e.xreplace({s: sympy.Rational(env[s.name][0], env[s.name][1]) for s in e.free_symbols}).doit().evalf(30)
 
 
 def as_expr(p):
@@ -280,7 +305,7 @@ def as_expr(p):
 def same_param(a, b):
     if isinstance(a, (int, float)) or isinstance(b, (int, float)):
         return type(a) == type(b) and a == b
-    return sympy.expand(rationalize(sympy.sympify(a)) - rationalize(sympy.sympify(b))) == 0
+    return sympy.expand((rationalize(sympy.sympify(a)) - rationalize(sympy.sympify(b))).doit()) == 0
 
 
 def chain(g):
@@ -327,6 +352,47 @@ def first_appearance(lists):
     return out
 
 
+BOUND_NAMES = ["k", "n", "j"]
+
+
+def oracle_depends(c, env):
+    """free_symbols must be exactly the symbols the parameters depend on, decided by evaluation: evaluate the
+    constructs (doit), then vary one symbol, keep the others fixed, and see whether some parameter's value
+    moves.  Every symbol that occurs anywhere in a parameter (bound or not) or is reported is tried.  (A
+    reported symbol on which nothing depends is given the benefit of the doubt when it is syntactically free
+    in a parameter - Subs(0, j, q), (x + 1)**2 - x**2 - 2*x - 1: degenerate constructs and algebraic
+    cancellation are not the subject here; a bound variable never is.)"""
+    base = {n: sympy.Rational(v[0], v[1]) for n, v in env.items()}
+    for i, n in enumerate(BOUND_NAMES):
+        base[n] = sympy.Integer(2 + i)
+    union = []
+    for o in c.operations:
+        raw = [p for p in o.params if isinstance(p, sympy.Expr)]
+        ps = [interp(p.doit()) for p in raw]
+        reported = [str(x) for x in o.free_symbols]
+        names = set(reported) | {x.name for p in o.params if isinstance(p, sympy.Expr) for x in p.atoms(sympy.Symbol)}
+        at = lambda vals: [complex(e.xreplace({sympy.Symbol(n): v for n, v in vals.items()}).evalf(30)) for e in ps]
+        v0 = at(base)
+        for n in sorted(names):
+            if n not in base:
+                return f"{o}: symbol {n} outside the generator's universe"
+            moved = False
+            for alt in (base[n] + 1, 3 * base[n] + sympy.Rational(1, 7)):
+                vals = dict(base)
+                vals[n] = alt
+                if any(abs(v - a) > 1e-9 * (1 + abs(a)) for v, a in zip(at(vals), v0)):
+                    moved = True
+                    break
+            if moved and n not in reported:
+                return f"{o} depends on {n} (its parameters change with it) but reports free symbols {reported}"
+            if n in reported and not moved and not any(sympy.Symbol(n) in p.free_symbols for p in raw):
+                return f"{o} reports the free symbol {n}, but none of its parameters {o.params} depends on it"
+        union += [n for n in reported if n not in union]
+    if [str(x) for x in c.free_symbols] != union:
+        return f"circuit free symbols {c.free_symbols}, first appearances over the operations {union}"
+    return ""
+
+
 def oracle_bound_op(o, b, m, env):
     """o.bind(m) == b must hold in the sense of the property; returns '' or a message."""
     if type(o) != type(b) or tuple(o.qubit_indices) != tuple(b.qubit_indices):
@@ -365,9 +431,12 @@ def g_number(rng, floats):
     return ["int", rng.randint(-4, 9)]
 
 
-def g_pynum(rng, floats):
+def g_pynum(rng, floats, value=False):
     if floats and rng.random() < 0.5:
-        return ["pyfloat", rng.choice([0.5, -1.5, 2.0, 0.25, 1.0, -0.75, 3.5, 0.0]).hex()]
+        # a Float that gets substituted into an expression must have an exact reciprocal: sympy rewrites
+        # (y - 3.5)**2 as 12.25*(0.285714285714286*y - 1)**2, which is no longer the same rational function
+        return ["pyfloat", rng.choice([0.5, -0.5, 2.0, 0.25, 1.0, -2.0, 4.0, 0.0] if value else
+                                      [0.5, -1.5, 2.0, 0.25, 1.0, -0.75, 3.5, 0.0]).hex()]
     return ["pyint", rng.randint(-3, 6)]
 
 
@@ -499,7 +568,7 @@ def g_map(rng, keys_pool, value_syms, trig, floats, extra_pool):
     for k in keys:
         r = rng.random()
         if numeric_only or r < 0.5 or not vs:
-            v = g_pynum(rng, floats) if rng.random() < 0.6 else g_number(rng, False)
+            v = g_pynum(rng, floats, value=True) if rng.random() < 0.6 else g_number(rng, False)
         elif r < 0.7:
             v = ["sym", rng.choice(vs)]
         else:
@@ -612,7 +681,7 @@ def g_history(rng):
     def value():
         r = rng.random()
         if r < 0.7:
-            return g_pynum(rng, floats) if rng.random() < 0.5 else g_number(rng, False)
+            return g_pynum(rng, floats, value=True) if rng.random() < 0.5 else g_number(rng, False)
         if r < 0.85:
             return ["sym", rng.choice(vsyms)]
         return g_expr(rng, vsyms, 1, trig, 2)
@@ -648,10 +717,100 @@ def g_history(rng):
     return dict(kind="history", ops=ops, n=width, steps=steps, envs=g_envs(rng, SYMS))
 
 
+def g_construct(rng, syms):
+    """a sympy construct with a bound variable; depends on syms[0] (and sometimes syms[1])"""
+    a, b = ["sym", syms[0]], ["sym", syms[1 % len(syms)]]
+    r = rng.randrange(7)
+    if r == 0:
+        return ["bsum", ["powsym", a, "k"], "k", 0, rng.randint(1, 3)]
+    if r == 1:
+        return ["bsum", ["mul", ["add", a, ["sym", "k"]], b], "k", 1, rng.randint(2, 3)]
+    if r == 2:
+        return ["bprod", ["add", ["int", 1], ["mul", a, ["sym", "n"]]], "n", 1, rng.randint(2, 3)]
+    if r == 3:        # the integration variable is also an ordinary circuit symbol / map key elsewhere
+        v = rng.choice(["j", "t"]) if syms[0] != "t" else "j"
+        return ["bint", ["mul", ["sym", v], a], v, 0, rng.choice([1, 2])]
+    if r == 4:
+        return ["bint", ["add", ["sym", "j"], ["mul", a, b]], "j", 0, 1]
+    if r == 5:
+        return ["bsubs", ["add", ["pow", ["sym", "j"], 2], a], "j", ["int", rng.randint(1, 3)]]
+    return ["bsubs", ["mul", ["add", ["sym", "j"], ["int", 1]], a], "j", b]
+
+
+def g_bound_param(rng, syms):
+    c = g_construct(rng, rng.sample(syms, len(syms)))
+    r = rng.random()
+    if r < 0.5:
+        return c
+    if r < 0.75:
+        return ["add", c, ["sym", rng.choice(syms)]]
+    return ["mul", ["rat", rng.choice([1, 3]), 2], c]
+
+
+def g_bound_history(rng):
+    """parameters with bound variables: bind partially, then the rest (same dict, refilled), then the bound
+    variables themselves as superfluous keys"""
+    syms = rng.sample([s for s in SYMS[:11]], rng.randint(2, 3))
+    extra = [s for s in SYMS if s not in syms and s != "t"]     # values must not mention a bound name (capture)
+    width = rng.randint(2, 4)
+    bp = lambda: g_bound_param(rng, syms)
+    plain = lambda: g_param(rng, syms, False, True)
+    ops = []
+    for _ in range(rng.randint(1, 3)):
+        r = rng.random()
+        if r < 0.25:
+            ops.append(["phase", rng.sample([bp(), plain(), ["sym", syms[0]], bp()], 4)[:rng.choice([2, 4])]])
+            continue
+        if r < 0.5:
+            name = rng.choice(["RX", "RZ", "PHASE", "GPi", "XX", "CPHASE"])
+            j, nq = ["builtin", name, [bp()]], leaf_nq(["builtin", name, []])
+        elif r < 0.65:
+            j, nq = ["builtin", "U3", rng.sample([bp(), plain(), ["sym", syms[-1]]], 3)], 1
+        elif r < 0.85:
+            j, nq = ["custom", 1, rng.sample([bp(), plain()], 2)], 1
+        else:
+            j, nq = ["custom", 2, [bp(), bp()]], 2
+        for _ in range(rng.choice([0, 0, 1, 2])):
+            mode = rng.choice(["direct", "method"])
+            if rng.random() < 0.5 and nq < width:
+                j, nq = ["ctrl", 1, j, mode], nq + 1
+            else:
+                j = ["dag", j, mode]
+        ops.append(["gate", j, rng.sample(range(width), nq)])
+    ops += g_ops(rng, syms, False, True, rng.randint(0, 2), width)
+    rng.shuffle(ops)
+
+    def value(numeric):
+        if numeric or rng.random() < 0.8:
+            return g_pynum(rng, True, value=True) if rng.random() < 0.4 else g_number(rng, False)
+        return ["add", ["sym", rng.choice(extra[:2])], g_number(rng, False)]
+    first = [s for s in syms if rng.random() < 0.5] or [syms[0]]
+    rest = [s for s in syms if s not in first]
+    total = rng.random() < 0.7
+    steps = [dict(edits=[["set", k, value(total)] for k in first]
+                  + ([["set", rng.choice(BOUND_NAMES), ["pyint", 7]]] if rng.random() < 0.3 else []),
+                  chain=False, via=rng.choice(["circuit", "ops", "gates"]))]
+    if rest:
+        steps.append(dict(edits=[["clear"]] + [["set", k, value(total)] for k in rest], chain=True,
+                          via=rng.choice(["circuit", "circuit", "ops", "gates"])))
+    if rng.random() < 0.6:
+        steps.append(dict(edits=[["clear"]] + [["set", k, ["pyint", rng.randint(5, 9)]] for k in rng.sample(BOUND_NAMES, 2)]
+                          + ([["set", "t", ["pyfloat", (0.25).hex()]]] if "t" not in syms else []),
+                          chain=rng.random() < 0.7, via=rng.choice(["circuit", "ops", "gates"])))
+    return dict(kind="history", label="bound-history", depends=True, ops=ops, n=width, steps=steps, envs=g_envs(rng, SYMS))
+
+
 def gen_all(rng, tier):
+    only = os.environ.get("VERIF_C06_STREAM")        # development aid: "history" / "bound" alone, thorough volume
+    if only:
+        for _ in range(int(os.environ.get("VERIF_C06_N", "900"))):
+            yield g_history(rng) if only == "history" else g_bound_history(rng)
+        return
     yield from gen(rng, tier)
     for _ in range({"quick": 60, "search": 300}.get(tier, 900)):
         yield g_history(rng)
+    for _ in range({"quick": 40, "search": 300}.get(tier, 900)):
+        yield g_bound_history(rng)
 
 # ----------------------------------------------------------------------------- cases
 
@@ -737,6 +896,9 @@ def run_case(inp):
         c0 = b_circuit(inp)
         m = {}                                    # the one dict object every step binds with
         cur, chks, msg, changed, prev = c0, [], "", 0, None
+        dep = inp.get("depends", False)
+        if dep:
+            msg = oracle_depends(c0, env_of(envs))
         for i, step in enumerate(inp["steps"]):
             for e in step["edits"]:
                 if e[0] == "clear":
@@ -757,7 +919,12 @@ def run_case(inp):
                 msg = f"step {i + 1}: bind modified the caller's map"
             if st == "ok":
                 cur = out
-        return dict(chk=" && ".join(chks), oracle_ok=not msg, oracle_msg=msg, kind=kind, nontrivial=changed > 0)
+                if dep and not msg:
+                    dmsg = oracle_depends(out, env_of(envs))
+                    if dmsg:
+                        msg = f"step {i + 1} (map {snapshot}): {dmsg}"
+        return dict(chk=" && ".join(chks), oracle_ok=not msg, oracle_msg=msg, kind=inp.get("label", kind),
+                    nontrivial=changed > 0 or (dep and len(inp["steps"]) > 0))
     if kind == "custom-matrix":
         d = DEFS[inp["d"]]
         ps = [b_param(p) for p in inp["ps"]]
